@@ -204,11 +204,20 @@ type qpeerGen interface {
 // qpeerEnumerate yields every enabled operation sequence of length 1..depth,
 // shortest first, in alphabet order.
 func qpeerEnumerate(root qpeerGen, ops []string, depth int, yield func(path []string) bool) bool {
+	return qpeerEnumerateFrom(root, nil, ops, depth, yield)
+}
+
+// qpeerEnumerateFrom is qpeerEnumerate behind a fixed seed prefix (which is
+// part of every yielded path and does not count towards depth).
+func qpeerEnumerateFrom(root qpeerGen, seed []string, ops []string, depth int, yield func(path []string) bool) bool {
 	type node struct {
 		g    qpeerGen
 		path []string
 	}
-	level := []node{{g: root}}
+	for _, op := range seed {
+		root, _ = root.Apply(op)
+	}
+	level := []node{{g: root, path: seed}}
 	for d := 1; d <= depth; d++ {
 		var next []node
 		for _, nd := range level {
